@@ -1,6 +1,7 @@
 import Lean.Data.Json
 import Driver.Common
 import Model.Elab
+import Proofs.WFCheck
 /-! driver command `J {"op":"sched", …}`: run the scheduler model on one scenario projection -/
 namespace SPD
 open SP Lean
@@ -85,14 +86,14 @@ def runSched (j : Json) : Json :=
   let σ := runScenario e
   let tasks := (List.range e.tasks.size).map (fun t =>
     let x := σ.tst t
-    Json.mkObj [("scheduled", Json.bool x.scheduled), ("start", optInt x.start), ("end", optInt x.stop),
+    Json.mkObj [("scheduled", Json.bool x.scheduled), ("start", optInt (x.start.map (Elab.abs p))), ("end", optInt (x.stop.map (Elab.abs p))),
                 ("forward", Json.bool x.forward), ("runaway", Json.bool x.runaway)])
   let led := σ.led.m.toList.map (fun (k, s) =>
     Json.mkObj [("r", Json.num (JsonNumber.fromNat k.1)), ("i", Json.num (JsonNumber.fromInt k.2)), ("used", ratJson s.used),
                 ("usage", Json.arr (s.usage.map (fun u => Json.arr #[Json.num (JsonNumber.fromNat u.1), ratJson u.2])).toArray)])
   let cnt := σ.cnt.m.toList.map (fun (k, v) =>
     Json.arr #[Json.num (JsonNumber.fromNat k.1), Json.num (JsonNumber.fromInt k.2), Json.num (JsonNumber.fromInt v)])
-  Json.mkObj [("end", Json.num (JsonNumber.fromInt e.stop)), ("size", Json.num (JsonNumber.fromInt e.size)),
+  Json.mkObj [("end", Json.num (JsonNumber.fromInt (Elab.abs p e.stop))), ("wf", Json.bool (wfCheck e)), ("size", Json.num (JsonNumber.fromInt e.size)),
               ("tasks", Json.arr tasks.toArray), ("ledger", Json.arr led.toArray), ("counters", Json.arr cnt.toArray),
               ("warnings", Json.arr (σ.warnings.map Json.str).toArray)]
 
